@@ -1,4 +1,5 @@
 import Rustic.Model.HotCold
+import Rustic.Model.WarmUp
 import Driver.Util
 import Driver.C20
 /-! Driver channel `c16` — see `harness/src/c16.rs` for the op-line grammar. -/
@@ -178,10 +179,26 @@ def handle : List String → String
   | ["repo", seed] => if seed.toNat?.isSome then "ok" else "bad-op"
   | ["repo-hist", steps, seed] =>
     -- `N` (the cold store does not need warm-up) only as the first step
-    if seed.toNat?.isSome ∧ (steps.splitOn ",").all (fun s => s.length = 1 ∧ s.toList.all (fun c => "bfFpmkixXIJuwNcyY".toList.contains c))
+    if seed.toNat?.isSome ∧ (steps.splitOn ",").all (fun s => s.length = 1 ∧ s.toList.all (fun c => "bfFpmkixXIJuwNcyYBr".toList.contains c))
         ∧ ¬ ((steps.splitOn ",").drop 1).contains "N" then "ok"
     else "bad-op"
   | ["repo-read-data", seed] => if seed.toNat?.isSome then "ok" else "bad-op"
+  | ["access", seed] => if seed.toNat?.isSome then "ok" else "bad-op"
+  | ["warmroute", n, w, h, t] =>
+    let flag (s : String) : Option Bool := if s = "0" then some false else if s = "1" then some true else none
+    let tpe : Option FileType := match t with
+      | "index" => some .index | "key" => some .key | "snapshot" => some .snapshot | "pack" => some .pack | _ => none
+    match flag n, flag w, flag h, tpe with
+    | some n, some w, some h, some tpe =>
+      let evs := Rustic.WarmUp.warmUpRepo (Rustic.WarmUp.repoBe n w h) tpe [7]
+      let show1 : Rustic.WarmUp.SEv → String
+        | .read .cold _ _ => "cold:read" | .warmReq .cold _ _ => "cold:warm"
+        | .read .hot _ _ => "hot:read" | .warmReq .hot _ _ => "hot:warm"
+      -- the harness prints the cold store's events first
+      let cold := evs.filter (fun e => match e with | .read .cold _ _ | .warmReq .cold _ _ => true | _ => false)
+      let hot := evs.filter (fun e => match e with | .read .hot _ _ | .warmReq .hot _ _ => true | _ => false)
+      if evs.isEmpty then "-" else "+".intercalate ((cold ++ hot).map show1)
+    | _, _, _, _ => "bad-op"
   | _ => "bad-op"
 
 end Driver.C16
